@@ -119,7 +119,8 @@ func scenario(H int, withNoPub bool, shapes []int, msgsPerTopic, c int) *explore
 					}
 				}
 				invs = append(invs, iv)
-				return iv.outs, nil
+				// the router gets its own slice: the harness keeps the order it returned
+				return append([]*message.Message{}, iv.outs...), nil
 			}
 			if w.noPub {
 				h := r.AddNoPublisherHandler(w.name, topics[w.topic], subs[w.sub], func(m *message.Message) error {
